@@ -142,7 +142,7 @@ def run(tier, seed, replay=None):
             stats['unsupported'] += 1; continue
         if r.startswith('(Crash'):
             stats['crash'] += 1; continue
-        gen, spec, bounded, trait, subs, expr_flag, keys = r.split('\t')
+        gen, spec, bounded, trait, subs, expr_flag, keys, backs = r.split('\t')
         if not subs.startswith('(Subs'):
             stats['no_superset'] += 1; continue
         mreq.append('subst\t%s\t%s\t%s' % (subs, bounded, trait)); midx.append((i, 'subst'))
@@ -152,6 +152,8 @@ def run(tier, seed, replay=None):
         for j, k in enumerate(kt[2]):
             mreq.append('roundtrip\t%s\t%s\t%s\t%s\t%s' % (subs, bounded, trait, show(k[2][0]), show(k[2][1])))
             midx.append((i, 'rt%d' % j))
+            mreq.append('applykey\t%s\t%s\t%s' % (subs, show(k[2][0]), show(k[2][1])))
+            midx.append((i, 'ap%d' % j))
     mresp = cm.run_model(mreq, exe_model)
     per = {}
     for (i, kind), m in zip(midx, mresp):
@@ -163,7 +165,7 @@ def run(tier, seed, replay=None):
             continue
         if i not in per:
             continue
-        gen, spec, bounded, trait, subs, expr_flag, keys = r.split('\t')
+        gen, spec, bounded, trait, subs, expr_flag, keys, backs = r.split('\t')
         expressible = expr_flag == '(Bool "true")'
         m = per[i]
         kt = sx.parse(keys)
@@ -200,8 +202,19 @@ def run(tier, seed, replay=None):
             bad = [j for j in range(len(results)) if m.get('rt%d' % j) != 'true']
             if not expressible:
                 stats['unstable'] += 1     # never used as a dispatch key (fix F1): nothing to substitute back
+            bt = sx.parse(backs)
+            impl_backs = [show(k) for k in bt[2]]
+            orig = show(('Key', '', [sx.parse(bounded), sx.parse(trait)]))
+            bad_impl = [j for j in range(len(results)) if j >= len(impl_backs) or impl_backs[j] != orig]
+            corr_ap = [j for j in range(len(results)) if j < len(impl_backs) and m.get('ap%d' % j) != impl_backs[j]]
+            stats['forward_applications'] = stats.get('forward_applications', 0) + len(impl_backs)
             if expressible and bad:
                 prop_fail = 'substituting the parameters back does not yield the original bound (result %d)' % bad[0]
+            elif expressible and bad_impl:
+                prop_fail = 'the crate\'s own forward substitution (Substitutions::apply) of result %d does not yield the original bound' % bad_impl[0]
+            elif corr_ap:
+                violations.append(dict(kind='correspondence', request=reqs[i], impl=impl_backs[corr_ap[0]], model=m.get('ap%d' % corr_ap[0]), subs=subs,
+                                       oracle='corr:hook/apply: Substitutions::apply and the Coq specification `apply` disagree'))
             elif (m['stable'] == 'true') != expressible:
                 violations.append(dict(kind='correspondence', request=reqs[i], impl=expr_flag, model=m['stable'], subs=subs,
                                        oracle='corr:hook/is_expressible: implementation and Coq model (stable_key) disagree'))
